@@ -85,6 +85,24 @@ static void out(const char *fmt, ...)
 	(void)r;
 }
 
+// ---- heap accounting (C09: xz --memlimit-*) ----------------------------
+// malloc/calloc/realloc/free of the whole program (xz and liblzma) are counted
+// by usable size; the peak is written as the last log line ("H peak <n>").
+#include <malloc.h>
+void *__real_malloc(size_t);
+void *__real_calloc(size_t, size_t);
+void *__real_realloc(void *, size_t);
+void __real_free(void *);
+static size_t heap_cur, heap_peak;
+static void heap_add(void *p) { if (p) { size_t c = __atomic_add_fetch(&heap_cur, malloc_usable_size(p), __ATOMIC_RELAXED); size_t pk = __atomic_load_n(&heap_peak, __ATOMIC_RELAXED); while (c > pk && !__atomic_compare_exchange_n(&heap_peak, &pk, c, 1, __ATOMIC_RELAXED, __ATOMIC_RELAXED)) {} } }
+static void heap_sub(void *p) { if (p) __atomic_sub_fetch(&heap_cur, malloc_usable_size(p), __ATOMIC_RELAXED); }
+void *__wrap_malloc(size_t n) { void *p = __real_malloc(n); heap_add(p); return p; }
+void *__wrap_calloc(size_t a, size_t b) { void *p = __real_calloc(a, b); heap_add(p); return p; }
+void *__wrap_realloc(void *q, size_t n) { heap_sub(q); void *p = __real_realloc(q, n); if (p) heap_add(p); else if (n) heap_add(q); return p; }
+void __wrap_free(void *p) { heap_sub(p); __real_free(p); }
+static size_t heap_base;   // what the simulator itself holds when main() starts
+static void heap_report(void) { out("H peak %zu cur %zu\n", heap_peak > heap_base ? heap_peak - heap_base : 0, heap_cur > heap_base ? heap_cur - heap_base : 0); }
+
 __attribute__((constructor)) static void shim_init(void)
 {
 	for (int i = 0; i < MAXFD; ++i) fd_role[i] = R_OTHER;
@@ -97,6 +115,7 @@ __attribute__((constructor)) static void shim_init(void)
 			int hi = fcntl(fd, F_DUPFD_CLOEXEC, 200);
 			if (hi >= 0) { __real_close(fd); fd = hi; }
 			log_fd = fd;
+			if (getenv("XZSIM_HEAP")) atexit(heap_report);
 		}
 	}
 	const char *pp = getenv("XZSIM_PLAN");
@@ -134,6 +153,7 @@ __attribute__((constructor)) static void shim_init(void)
 		p.pct_d = 2;
 		sim_begin(&p);
 	}
+	heap_base = heap_cur;
 }
 
 static int sig_deliverable(int signo)
